@@ -146,6 +146,7 @@ pub fn execute(case: &ChanCase) -> ChanRun {
         abort_unwind: true,
         script: vec![],
         abort_on_cell_race: false,
+        stretch: 1,
     };
     let exec = Exec::new(cfg, n);
     let ch: Arc<Channel<Payload>> = Arc::new(Channel::new());
